@@ -32,7 +32,8 @@ def coroutine_scope(prog):
                 work.append(c)
         for bi, t in prog.calls(b):
             kind, callee = prog.resolve_callee(t['func'].get('fn'), bind_listener=False)
-            if kind == 'local' and callee not in out and callee.startswith('parser::') and 'ParserListener' not in callee:
+            if kind == 'local' and callee not in out and 'ParserListener' not in callee and not callee.startswith('<screen::') \
+                    and not callee.startswith('screen::'):
                 out.add(callee)
                 work.append(callee)
     return out
